@@ -10,7 +10,7 @@ struct ArcEntry {
     name: String,
     index: u32,
     size: u32,
-    address: u32,
+    address: usize,
 }
 
 pub fn from_bytes(bytes: &[u8]) -> Result<HashMap<String, Vec<u8>>> {
@@ -31,7 +31,7 @@ pub fn from_bytes(bytes: &[u8]) -> Result<HashMap<String, Vec<u8>>> {
         let name = reader.read_string()?.ok_or(ArcError::MissingName)?;
         let index = reader.read_u32()?;
         let size = reader.read_u32()?;
-        let address = reader.read_u32()? + header_padding;
+        let address = reader.read_u32()? as usize + header_padding;
         entries.push(ArcEntry {
             name,
             index,
@@ -43,7 +43,7 @@ pub fn from_bytes(bytes: &[u8]) -> Result<HashMap<String, Vec<u8>>> {
     // Read files.
     let mut files: HashMap<String, Vec<u8>> = HashMap::new();
     for entry in entries {
-        reader.seek(entry.address as usize);
+        reader.seek(entry.address);
         let buffer = reader.read_bytes(entry.size as usize)?;
         files.insert(entry.name, buffer);
     }
